@@ -317,7 +317,14 @@ func (x *Exec) isPureRole(tg target) bool {
 
 func (x *Exec) pureApply(cfg *Config, tg target, args []Val) Val { return nil }
 
-func (x *Exec) traceCall(cfg *Config, tg target, args []Val) {}
+// traceCall counts executions of unknown function values (ghost calls(f)).
+func (x *Exec) traceCall(cfg *Config, tg target, args []Val) {
+	if tg.unknown == nil {
+		return
+	}
+	arr := x.heapGet(cfg.st, "$calls", SArr(SInt, x.idxSort()))
+	cfg.st.heap["$calls"] = Store(arr, *tg.unknown, Add(Select(arr, *tg.unknown), x.intLit(1, x.idxSort())))
+}
 
 // ---------------------------------------------------------------------------
 // return / panic / defers
